@@ -226,6 +226,10 @@ N_EXTRA_BIG = 4
 MIXED_PIECES = [[20, 1 << 20], [40000, 1, 1 << 20], [7, 3000, 1, 1024, 100, 65536], [1023, 1024, 1025, 1], [1, 70000]]
 
 
+def shard_files_huge(tier):
+    return True
+
+
 def shard_files(shard, nshards, tier, seed, scratch):
     stats = Stats()
     failures, seen = [], set()
@@ -264,6 +268,45 @@ def shard_files(shard, nshards, tier, seed, scratch):
                                 d['first_diff'] = next((i for i, (x, y) in enumerate(zip(got[0], exp[0])) if x != y), None)
                             failures.append({'leg': 'files', 'clause': 'large-file-' + label, 'detail': d, 'case': {'kind': 'bigfile', 'name': name, 'policy': policy}})
             stats.bump('big-files')
+        # a file larger than 16 MiB (2^24 bytes) with a 3-byte and a 4-byte character straddling the 2^24 offset: bulk reading,
+        # default streaming and 1 MiB chunks agree (count, digest, first / last / boundary records) and equal the known content
+        if shard_files_huge(tier):
+            line = 'r%07d,' + 'x' * 1000 + '\n'        # 1010 bytes per ordinary line
+            nlines = 16700
+            for tok in ('\u20ac', '\U0001d11e'):
+                parts, size, boundary_index = [], 0, None
+                for i in range(nlines):
+                    l = (line % i).encode()
+                    if boundary_index is None and size + len(l) > (1 << 24) - 1:
+                        pad = (1 << 24) - 1 - size - len('b,') 
+                        l = ('b,' + 'p' * pad + tok + 'tail\n').encode()
+                        boundary_index = i
+                    parts.append(l)
+                    size += len(l)
+                data = b''.join(parts)
+                path = os.path.join(scratch, 'c20_huge.csv')
+                with open(path, 'wb') as f:
+                    f.write(data)
+                cfg = dict(encoding='utf-8', delim=',', policy='quoted', comment_prefix=None, has_header=False, summary=True, at_indices=[boundary_index, boundary_index + 1])
+                res = {}
+                for label, extra in (('bulk', dict(mode='bulk')), ('createReadStream-default', dict(mode='file')), ('createReadStream-1MiB', dict(mode='file', high_water_mark=1 << 20))):
+                    res[label] = drv.call(dict(cfg, cmd='read_csv', path=path, **extra))
+                    stats.evaluations += 1
+                    stats.nontrivial_counted += 1
+                os.unlink(path)
+                want_boundary = ['b', 'p' * ((1 << 24) - 1 - (1010 * boundary_index) - 2) + tok + 'tail']
+                for label, r in res.items():
+                    bad = None
+                    if r.get('error') is not None:
+                        bad = {'error': r['error']}
+                    elif r['n_records'] != nlines or r['first'] != ['r0000000', 'x' * 1000] or r['at'][0] != want_boundary or r['warnings']:
+                        bad = {'n_records': r['n_records'], 'expected_records': nlines, 'boundary_record_ok': r['at'][0] == want_boundary, 'warnings': r['warnings']}
+                    elif r['sha1'] != res['bulk'].get('sha1') and res['bulk'].get('error') is None:
+                        bad = {'digest_differs_from_bulk': True}
+                    if bad is not None and ('huge', label) not in seen:
+                        seen.add(('huge', label))
+                        failures.append({'leg': 'files', 'clause': 'file-over-16MiB-' + label, 'detail': dict(bad, size=len(data), character=tok, straddles_offset=1 << 24), 'case': {'kind': 'huge-file'}})
+            stats.bump('files-over-16MiB')
         # two stream readers alive at once (an input and a join table being read together): A is cut inside a multi-byte
         # character / a CRLF pair, B is delivered completely in between; each must read as it does alone
         samples = ['é,1\r\n€,2\r\n', 'a,𝄞\n"x\r\ny",é\n', '\ufeffk,v\nñ,1\n', 'a\r\nb\r\n']
